@@ -150,15 +150,15 @@ func (s *SynthFs) Stat(name string) (os.FileInfo, error) {
 	}
 	return synthInfo{n, s.MT}, nil
 }
-func (s *SynthFs) Create(string) (afero.File, error)            { return nil, syscall.EROFS }
-func (s *SynthFs) Mkdir(string, os.FileMode) error              { return syscall.EROFS }
-func (s *SynthFs) MkdirAll(string, os.FileMode) error           { return syscall.EROFS }
-func (s *SynthFs) Remove(string) error                          { return syscall.EROFS }
-func (s *SynthFs) RemoveAll(string) error                       { return syscall.EROFS }
-func (s *SynthFs) Rename(string, string) error                  { return syscall.EROFS }
-func (s *SynthFs) Chmod(string, os.FileMode) error              { return syscall.EROFS }
-func (s *SynthFs) Chown(string, int, int) error                 { return syscall.EROFS }
-func (s *SynthFs) Chtimes(string, time.Time, time.Time) error   { return syscall.EROFS }
+func (s *SynthFs) Create(string) (afero.File, error)          { return nil, syscall.EROFS }
+func (s *SynthFs) Mkdir(string, os.FileMode) error            { return syscall.EROFS }
+func (s *SynthFs) MkdirAll(string, os.FileMode) error         { return syscall.EROFS }
+func (s *SynthFs) Remove(string) error                        { return syscall.EROFS }
+func (s *SynthFs) RemoveAll(string) error                     { return syscall.EROFS }
+func (s *SynthFs) Rename(string, string) error                { return syscall.EROFS }
+func (s *SynthFs) Chmod(string, os.FileMode) error            { return syscall.EROFS }
+func (s *SynthFs) Chown(string, int, int) error               { return syscall.EROFS }
+func (s *SynthFs) Chtimes(string, time.Time, time.Time) error { return syscall.EROFS }
 
 type synthFile struct {
 	fs     *SynthFs
@@ -248,10 +248,10 @@ type Ledger struct {
 	Open    map[int]string // handle id -> name (still open)
 	Opened  int
 	Closed  int
-	Ops     int            // filesystem operations seen (fault index space)
-	OpLog   []string       // kind:name per op (bounded)
-	FailAt  int            // operation index to fail (-1 none)
-	FailAt2 int            // second operation index to fail (-1 none)
+	Ops     int      // filesystem operations seen (fault index space)
+	OpLog   []string // kind:name per op (bounded)
+	FailAt  int      // operation index to fail (-1 none)
+	FailAt2 int      // second operation index to fail (-1 none)
 	FailErr error
 	ShortAt int // read op index to cut short (-1 none)
 	ShortTo int // bytes
